@@ -29,9 +29,6 @@ def parseModeOp : String → Option Mode
   | "never" => some .never | "empty" => some .never | "bogus" => some .never
   | "monitor" => some .monitor | "always" => some .always | _ => none
 
-def parseModeObs : String → Option Mode
-  | "never" => some .never | "monitor" => some .monitor | "always" => some .always | _ => none
-
 def b01 (b : Bool) : String := if b then "1" else "0"
 
 def extLocal (exts : List (List String)) : Option Nat :=
@@ -63,8 +60,8 @@ def sStep (s : St) (op : List String) (exts : List (List String)) : St × Option
   | _ => (s, some "bad-op")
 
 /-! Monitor: the conclusions of the C15 theorems, evaluated on what the implementation reported
-(its levels, its relief state, the configuration it read back) and on the inputs of the history
-(clock, peer reports).  It keeps no model state. -/
+(its levels, its relief state) and on the inputs of the history (clock, peer reports, the
+configuration that was loaded).  It keeps no model state. -/
 structure MSt where
   now : Int := 0
   cfg : Cfg := {}
@@ -89,9 +86,11 @@ def sMon (m : MSt) (op : List String) (exts : List (List String)) (obs : Option 
   | ["peer", id, l] => match id.toNat?, l.toNat? with
     | some id, some l => ({ m with sp := m.sp.step (.peer id l), bounded := m.bounded && decide (l ≤ 100) }, [])
     | _, _ => (m, [])
-  | "reload" :: _ =>
+  | ["reload", md, a, d, mn] =>
+    -- the configuration in force is the one that was loaded (the op's arguments), not what the
+    -- implementation says it stored
     let valid := exts.any fun e => e.getLast? == some "ok"
-    match (kv toks "mode").bind parseModeObs, nat "act", nat "deact", (kv toks "min").bind String.toInt?, nat "on" with
+    match parseModeOp md, a.toNat?, d.toNat?, mn.toInt?, nat "on" with
     | some md, some a, some d, some mn, some on =>
       let fs := if (on == 1) != m.on then
         [fail "C15:relief-changed-outside-recalc" s!"Stressed() went {b01 m.on} -> {on} at a reload"] else []
